@@ -342,6 +342,9 @@ def run_check(mod, tier, seed, jobs, logpath):
     pool = Pool(mod.__name__, jobs, plan.get("unit_timeout", 600), logpath)
     pool.run(units, on_result)
 
+    if hasattr(mod, "finalize"):
+        agg["violations"] += mod.finalize(agg, plan)
+
     if agg["errors"]:
         for e in agg["errors"][:3]:
             print("HARNESS-ERROR in unit", e["unit"], "\n", e["error"], file=sys.stdout)
